@@ -62,29 +62,44 @@ theorem MJ.init_inv (L : Int) (hL : 0 ≤ L) : MJInv L (MJ.init L) :=
 
 /-! ### re-attaching after a restart -/
 
-def reattachOps (ids : List Nat) : List MJOp := ids.map fun id => MJOp.attempt id .queued true
+/-- what `Node.reattachJobs` does on the fresh semaphore: one non-blocking
+`Acquire` per in-flight job, with the state the restarted mrp reads from disk
+(`Metadata.reattachJob` calls `reattach` for Queued and Running jobs) -/
+def reattachOps (ids : List (Nat × MdState)) : List MJOp :=
+  ids.map fun p => MJOp.attempt p.1 p.2 true
 
-theorem MJ.run_reattach (L : Int) (ids : List Nat) : ∀ (s : MJ), s.limit = L →
-    (s.running ++ ids).Nodup → ((s.running.length + ids.length : Nat) : Int) ≤ L →
-    (s.run (reattachOps ids)).running = s.running ++ ids ∧ (s.run (reattachOps ids)).limit = L := by
+/-- the states for which `reattachJob` calls `reattach` -/
+def MdState.inFlight : MdState → Prop
+  | .queued => True
+  | .running => True
+  | _ => False
+
+theorem MdState.inFlight_not_cancelled (st : MdState) (h : st.inFlight) : st.cancelled true = false := by
+  cases st <;> simp_all [MdState.inFlight, MdState.cancelled]
+
+theorem MJ.run_reattach (L : Int) (ids : List (Nat × MdState)) : ∀ (s : MJ), s.limit = L →
+    (∀ p ∈ ids, p.2.inFlight) →
+    (s.running ++ ids.map (·.1)).Nodup → ((s.running.length + ids.length : Nat) : Int) ≤ L →
+    (s.run (reattachOps ids)).running = s.running ++ ids.map (·.1) ∧ (s.run (reattachOps ids)).limit = L := by
   induction ids with
-  | nil => intro s hl _ _; simp [reattachOps, MJ.run, hl]
-  | cons id ids ih =>
-    intro s hl hnd hlen
+  | nil => intro s hl _ _ _; simp [reattachOps, MJ.run, hl]
+  | cons p ids ih =>
+    intro s hl hst hnd hlen
     simp only [reattachOps, List.map_cons, MJ.run, MJ.step]
-    have hnot : id ∉ s.running := by
+    have hnot : p.1 ∉ s.running := by
       intro h
       rw [List.nodup_append] at hnd
-      exact hnd.2.2 id h id (by simp) rfl
+      exact hnd.2.2 p.1 h p.1 (by simp) rfl
     have hroom : ¬ (s.limit ≤ (s.running.length : Int)) := by
       rw [hl]; simp only [List.length_cons] at hlen; omega
-    have hstep : (s.attempt id .queued true).1 = { s with running := s.running ++ [id] } := by
+    have hcan : p.2.cancelled true = false := MdState.inFlight_not_cancelled p.2 (hst p (by simp))
+    have hstep : (s.attempt p.1 p.2 true).1 = { s with running := s.running ++ [p.1] } := by
       unfold MJ.attempt
-      simp only [MdState.cancelled, Bool.false_eq_true, if_false, hroom]
-      have : s.running.contains id = false := by simpa using hnot
+      simp only [hcan, Bool.false_eq_true, if_false, hroom]
       rw [if_neg (by simpa using hnot)]
     rw [hstep]
-    have := ih { s with running := s.running ++ [id] } hl
+    have := ih { s with running := s.running ++ [p.1] } hl
+      (fun q hq => hst q (by simp [hq]))
       (by simpa [List.append_assoc] using hnd)
       (by simp only [List.length_append, List.length_cons, List.length_nil] at hlen ⊢; omega)
     simpa [reattachOps, List.append_assoc] using this
